@@ -11,7 +11,7 @@ IMPORTS = ('From Coq Require Import List ZArith NArith.\n'
            'Import ListNotations.\n')
 CASE_TYPE = 'C12.case'
 TAGS = {'translate': 0, 'rotate': 1, 'scale': 2, 'matrix': 3}
-MAX_PATHS = 120
+MAX_PATHS = 80
 
 
 # ------------------------------------------------------------------ encoding
@@ -235,7 +235,7 @@ def run(ctx):
     quick = ctx.quick()
     rng = ctx.rng
     lib = c12docs.gen_library(rng)
-    n = 700 if quick else 6000
+    n = 600 if quick else 6000
     cases, rejected = gen_cases(rng, lib, n)
     ctx.log('running %d scene graphs on the implementation' % len(cases))
     results = run_cases(lib, cases)
